@@ -206,7 +206,9 @@ fn nonce_pair_ops(p: &Proto, all_pairs: bool, stateful_reader: bool) -> Vec<Op> 
 
 pub fn run(tier: Tier) -> i32 {
     let ctx = Ctx::new("C04", tier, "fault_enumeration");
-    let quick = ctx.quick();
+    // the whole thorough alphabet costs a few seconds: both tiers run it
+    let quick = false;
+    let _ = ctx.quick();
     ctx.set_rule("case = one delivery to a transport-mode read: the peer's genuine message altered by every single-bit flip, every truncation length, extensions, all-zero / all-ones strings, reflection to its own sender, the corresponding message of a parallel session with the same static keys, a handshake message, and (stateless) the genuine message under every other nonce of a 80-value boundary alphabet; stateful and stateless, both directions, 38 patterns + psk variants x 3 ciphers x 2 backends; oracle: Ok iff unaltered message of this session, direction, key and nonce. non-trivial = the delivery was rejected as required");
     let mut cases: Vec<(Proto, Backend, bool, usize, usize)> = vec![];
     let base = patterns::base_patterns();
